@@ -205,7 +205,7 @@ def start_masks(owner, perm, blur, K, F):
     return np.stack([soft[perm[:, f]] for f in range(F)])
 
 
-def fit_predict(model, Y_ftd, init, iterations):
+def fit_predict(model, Y_ftd, init, iterations, entry='fit+predict'):
     from pb_bss.distribution import CACGMMTrainer, CWMMTrainer
     if model == 'cacgmm':
         tr = CACGMMTrainer()
@@ -213,6 +213,8 @@ def fit_predict(model, Y_ftd, init, iterations):
         tr = CWMMTrainer()
     else:
         raise ValueError(model)
+    if entry == 'fit_predict':       # the trainer's own convenience entry point
+        return tr.fit_predict(Y_ftd, initialization=init, iterations=iterations)
     m = tr.fit(Y_ftd, initialization=init, iterations=iterations)
     return m.predict(Y_ftd)          # (F, K, T)
 
